@@ -139,7 +139,13 @@ pub fn run(ctx: &Ctx) -> Outcome {
             }
             let code = LANGS[(i % 7) as usize];
             let lex = ls.lexicon(code);
-            let toks = gen_stream(&mut rng, lex, &StreamOpts::hinted(16));
+            // a third of the streams have no whitespace tokens (adjacent occurrences) and are long (8 and more occurrences)
+            let opts = match i % 3 {
+                0 => StreamOpts { ws_tokens: false, ..StreamOpts::hinted(40) },
+                1 => StreamOpts::hinted(16),
+                _ => StreamOpts { ws_tokens: false, sep_permille: 0, nan_permille: 0, ..StreamOpts::hinted(24) },
+            };
+            let toks = gen_stream(&mut rng, lex, &opts);
             crate::core::set_current(code, "replace_numbers_in_stream", &streams::show_stream(&toks));
             let mut n_occ = 0;
             for &t in [0.0, 10.0].iter() {
@@ -152,6 +158,9 @@ pub fn run(ctx: &Ctx) -> Outcome {
             }
             rep.eval(streams::stream_hash(code, &toks), n_occ > 0);
             rep.add("stream_occurrences_accounted", n_occ as u64);
+            if n_occ >= 8 {
+                rep.count("streams_with_8_or_more_occurrences");
+            }
         }
     });
     let rule = "text form: hostile texts (noise words joined by varied separators, multi-byte salt, mutated vocabulary, linking sentences, annotator-state texts, some 60 words long) at thresholds 0,3,10,inf,NaN: concat(tokens)==input, rewrite == harness-side splice of find_numbers on the same annotated tokens; texts over an alphabet that cannot spell a number (CJK, emoji, Cyrillic, Greek, punctuation, digits) returned identical with no occurrence; stream form: hinted IdTok streams through replace_numbers_in_stream, ids kept or handed to Replace::replace exactly once in order, one replacement per reported occurrence; non-trivial = every text (the equality is checked on all of them) / streams with at least one occurrence";
